@@ -27,7 +27,12 @@ def structures(ctx):
     out.append(("blank+B+lig", C.join(C.rename_chain(a, "A", " ") + [C.TER] + b + [C.TER] + C.rename_chain(lig, "B", "L"))))
     no_oxt = lambda ls: C.drop(ls, lambda ln: ln[12:16].strip() == "OXT")  # noqa
     out.append(("A,B,C-no-TER", C.join(no_oxt(a) + no_oxt(b) + C.rename_chain(C.chain_lines("1HPX", "A", 60, 10), "A", "C"))))
+    # chain identifiers that differ only in case (large assemblies run out of upper-case letters), digits
+    out.append(("chains-A+a", C.join(a + [C.TER] + C.rename_chain(b, "B", "a") + [C.TER])))
     if ctx.thorough():
+        sg = C.test_pdb_text("3SGB-subset").splitlines()
+        out.append(("3SGB-subset-E+e", C.join(C.rename_chain(sg, "I", "e"))))
+        out.append(("chains-1+A", C.join(C.rename_chain(a, "A", "1") + [C.TER] + C.rename_chain(b, "B", "A") + [C.TER])))
         out += [("3SGB", C.test_pdb_text("3SGB")), ("4DFR", C.test_pdb_text("4DFR")),
                 ("1HPX-warn", C.test_pdb_text("1HPX-warn"))]
     return out
@@ -38,11 +43,13 @@ def run(ctx):
                 "non-trivial = subset that removes at least one atom record")
     c01_reader.model_check(ctx, [("MC_PdbReader_rich.cfg" if ctx.thorough() else "MC_PdbReader_rich3.cfg",
                                   "reader(chains=S) = reader(Filter(s,S)), all sequences x subsets")])
+    c01_reader.model_check(ctx, [("MC_PdbReader_case.cfg", "chains that differ only in case, sequences <= 4 x subsets")])
     gens = [("Gen_PdbReader2.cfg", "emit rich <= 2 x chain subsets", None),
-            ("Gen_PdbReader_term3.cfg", "emit termini <= 3 x chain subsets", None)]
+            ("Gen_PdbReader_term3.cfg", "emit termini <= 3 x chain subsets", None),
+            ("Gen_PdbReader_case.cfg" if ctx.thorough() else "Gen_PdbReader_case3.cfg", "emit chains A/a x chain subsets", None)]
     if ctx.thorough():
         gens = [("Gen_PdbReader.cfg", "emit rich <= 3 x chain subsets", None),
-                ("Gen_PdbReader_term.cfg", "emit termini <= 4 x chain subsets", None)]
+                ("Gen_PdbReader_term.cfg", "emit termini <= 4 x chain subsets", None)] + gens[2:]
     bad = c01_reader.replay(ctx, gens, pid_filter="C13")
     for k, (seq, chains, exp, got, text) in sorted(bad.items()):
         ctx.violation(k, f"reader on\n{text}chains={chains}: expected {exp}, got {got}", {"pdb": text, "chains": chains})
